@@ -438,6 +438,12 @@ def apply_answer_fault(answer_obj, fault, cfg):
                 pass    # path vanished through an earlier fault of a multi set
         elif kind == 'garbage':
             raw = bytes.fromhex(f['hex'])
+        elif kind == 'upper_escapes':
+            # \uXXXX escapes as Java writers emit them (upper-case hex)
+            import re
+            raw = re.sub(rb'\\u[0-9a-f]{4}',
+                         lambda m: b'\\u' + m.group(0)[2:].upper(),
+                         raw if raw is not None else dump(answer_obj))
         elif kind == 'truncate':
             raw = (raw if raw is not None else dump(answer_obj))[:f['at']]
         else:
